@@ -347,7 +347,8 @@ def rule_ring(ctx, rep):
         st = pat.stores(u, glob="defer_thread_stop", pred=lambda e: ir.const_of(u, e.val) == 1)
         join = pat.calls(u, "pthread_join")
         if st and join:
-            fl_ld = [i for i in pat.loads(u, glob="defer_thread_futex") if pat.from_fn(i, "wake_up_defer")]
+            fl_ld = pat.loads(u, glob="defer_thread_futex")      # the waker's futex test (whatever the helper is called)
+            pat.require(fl_ld, "%s: unregister does not test the reclaimer's futex" % fl)
             rep.must_pass("C13.sleep", fl + ".stop≺FULL≺wake", u, st, fl_ld, mm.is_full, what="FULL between stop=1 and the futex test of wake_up_defer")
             rep.must_pass("C13.sleep", fl + ".wake≺join", u, st, join, lambda i: i in fl_ld, what="reclaimer is woken before it is joined")
         else:
